@@ -5,7 +5,7 @@
 cd /verif
 export GOFLAGS=-mod=mod GOPROXY=off GOSUMDB=off GOTOOLCHAIN=local PATH=/opt/veriftools/go1.26.8/bin:$PATH
 props=${@:-C01 C02 C03 C04 C05 C06 C07 C08 C09 C10 C11 C12 C13 C14 C15 C16 C17 C18 C20}
-declare -A N=([C01]=400 [C02]=1000 [C03]=60 [C04]=400 [C05]=400 [C06]=200 [C07]=1000 [C08]=1000 [C09]=300 [C10]=300 [C11]=80 [C12]=100 [C13]=200 [C14]=24 [C15]=16 [C16]=100 [C17]=120 [C18]=600 [C20]=8)
+declare -A N=([C01]=400 [C02]=1000 [C03]=60 [C04]=400 [C05]=400 [C06]=200 [C07]=1000 [C08]=1000 [C09]=300 [C10]=300 [C11]=80 [C12]=100 [C13]=200 [C14]=24 [C15]=16 [C16]=100 [C17]=120 [C18]=600 [C20]=160)
 T=$(mktemp -d /tmp/det-XXXXXX); trap 'rm -rf $T' EXIT
 : > determinism-report.txt
 bad=0
